@@ -284,6 +284,11 @@ class DefinitionsMapper:
         for attr in body.attrs:
             attr.restrictions.min_occurs = 0
 
+        # A fault response need not carry the soap headers bound to the output message
+        for attr in target.attrs:
+            if attr.name != "Body":
+                attr.restrictions.min_occurs = 0
+
     @classmethod
     def build_envelope_class(
         cls,
